@@ -14,6 +14,13 @@ CHECKS = {
         technique=MC_TECH + " (all programs up to k constructs x 6 configurations, differential against a reference interpreter)",
         design="DESIGN.md §4 C01",
     ),
+    "C02": dict(
+        category="exploration",
+        text="Exhaustive enumeration of inheritance chains (all 3-layer chains over 2 names x member kinds x both composition syntaxes; all 2-layer chains over all 12 member kinds with object locals, assertions and std.objectRemoveKey masks; 4-5 layer chains with a bounded number of members; chains in which one layer value occurs at two positions). Each composed object is built once and probed with 23 observations (reads, objectHas*, in, std.get, field lists, manifestation, equality, super reads from above) against the reference object model; failing chains are shrunk to a minimal chain.",
+        note="Trusted: the reference object model (layers, masks, visibility merge, assertion timing) in harness/src/refi.rs and refstd.rs.",
+        technique=MC_TECH + " (all inheritance chains up to the stated bounds x probe set, differential against a reference object model)",
+        design="DESIGN.md §4 C02",
+    ),
     "C04": dict(
         category="model_checking",
         text="Bounded exhaustive exploration on the real code: every std function x every boundary argument tuple, every short token/character sequence through all three parsers and the evaluator, every recursion depth across the frame limit, every 3-node dependency digraph, and an explicit-state exploration of all evaluation histories (12-op alphabet) on one thread/State with probes after every transition; workers are isolated processes so aborts and native stack overflows are attributed to the journalled case.",
